@@ -64,7 +64,10 @@ def deps(e, spare, congest):
 
 OPS = ([("init", e) for e in ("L0", "L1", "O0")] + [("step", e) for e in ("L0", "L1", "O0")]
        + [("netstep", p, o) for p in (0, 1) for o in (0, 1)]
-       + [("spare",), ("init", "L2"), ("step", "L2"), ("congest",), ("init", "D2")])
+       + [("spare",), ("init", "L2"), ("step", "L2"), ("congest",), ("init", "D2")]
+       # Network.step with the ramp queue given as a plain Python number (a known initial queue), everything else symbolic
+       + [("netstep_num",)])
+W_NUM = 12.5
 
 
 class Model:
@@ -75,6 +78,7 @@ class Model:
         self.clamped = {e: False for e in ELEMS}
         self.stepped = {e: None for e in STATEFUL}  # (spare, congest, pidx, next_clamp, {dep: (gen, clamped)})
         self.attempted = {e: False for e in STATEFUL}  # a failed step attempt since the last successful step
+        self.wnum = False  # the ramp queue currently is a plain number (not an input of the function)
         self._g = 0
 
     def in_net(self, e):
@@ -104,7 +108,8 @@ class Model:
     def _record(self, e, pidx, nxt):
         self.attempted[e] = False
         self.stepped[e] = (self.spare, self.congest, pidx, nxt,
-                           {x: (self.gen[x], self.clamped[x]) for x in deps(e, self.spare, self.congest)})
+                           {x: (self.gen[x], self.clamped[x]) for x in deps(e, self.spare, self.congest)},
+                           self.wnum and "O0" in deps(e, self.spare, self.congest))
 
     def apply(self, op):
         k = op[0]
@@ -112,11 +117,24 @@ class Model:
             self._g += 1
             self.gen[op[1]] = self._g
             self.clamped[op[1]] = False
+            if op[1] == "O0":
+                self.wnum = False
+        elif k == "netstep_num":
+            self.wnum = True
+            for e in ELEMS:
+                if self.in_net(e):
+                    self._g += 1
+                    self.gen[e] = self._g
+                    self.clamped[e] = False
+            for e in STATEFUL:
+                if self.in_net(e):
+                    self._record(e, 0, (False,) * 3)
         elif k == "step":
             # calling an element's own step uses that method's defaults: Link.step_dynamics clamps the next
             # SPEED by default (positive_next_speed=True), nothing else
             self._record(op[1], 0, (op[1].startswith("L"), False, False))
         elif k == "netstep":
+            self.wnum = False
             for e in ELEMS:
                 if self.in_net(e):
                     self._g += 1
@@ -147,7 +165,7 @@ class Model:
         return "function", ""
 
     def key(self):
-        k = [self.spare, self.congest, tuple(sorted(self.attempted.items()))]
+        k = [self.spare, self.congest, self.wnum, tuple(sorted(self.attempted.items()))]
         for e in ELEMS:
             k.append((self.gen[e] > 0, self.clamped[e]))
         for e in STATEFUL:
@@ -155,13 +173,14 @@ class Model:
             if s is None:
                 k.append(None)
             else:
-                k.append((s[0], s[1], s[2], s[3], tuple(sorted((x, self.gen[x] == g, c) for x, (g, c) in s[4].items()))))
+                k.append((s[0], s[1], s[2], s[3], tuple(sorted((x, self.gen[x] == g, c) for x, (g, c) in s[4].items())), s[5]))
         return tuple(k)
 
 
-def real_setup(sym):
-    obj = make_elements(SPEC_FULL)
-    obj["D2free"] = M.Destination(name="D2free")
+def real_setup(sym, equal_names=False):
+    obj = make_elements(SPEC_FULL, names=({k: "e" for k in ("n0", "n1", "n2", "n3", "L0", "L1", "L2", "O0", "D2", "D3")}
+                                          if equal_names else None))
+    obj["D2free"] = M.Destination(name="e" if equal_names else "D2free")
     net = M.Network(name="net")
     n = [obj[f"n{i}"] for i in range(4)]
     net.add_path((n[0], obj["L0"], n[1], obj["L1"], n[2]), origin=obj["O0"], destination=obj["D2free"])
@@ -177,6 +196,8 @@ def real_apply(net, obj, eng, op):
         obj[op[1]].step(net=net, engine=eng, **P_SETS[0])
     elif k == "netstep":
         net.step(engine=eng, **P_SETS[op[1]], **(ALLPOS if op[2] else {}))
+    elif k == "netstep_num":
+        net.step(engine=eng, init_conditions={obj["O0"]: {"w": W_NUM}}, **P_SETS[0])
     elif k == "spare":
         net.add_link(obj["n1"], obj["L2"], obj["n3"])
         net.add_destination(obj["D3"], obj["n3"])
@@ -201,8 +222,8 @@ _TWIN = {}
 def twin_next(e, info):
     """Expected next state of element e under its most recent step: NumPy step of a twin network with the
     topology of that moment, inputs of the dependencies clamped where their states were clamped expressions."""
-    spare, congest, pidx, nxt, depinfo = info
-    key = (e, spare, congest, pidx, nxt, tuple(sorted((x, c) for x, (g, c) in depinfo.items())))
+    spare, congest, pidx, nxt, depinfo, wnum = info
+    key = (e, spare, congest, pidx, nxt, tuple(sorted((x, c) for x, (g, c) in depinfo.items())), wnum)
     if key not in _TWIN:
         spec = spec_for(spare, congest)
         have = {(k, v) for k, v, n, r in spec.variables()}
@@ -212,17 +233,20 @@ def twin_next(e, info):
                 continue
             c = depinfo.get(kv[0], (0, False))[1]
             val[kv] = [max(0.0, x) for x in lst] if (c and kv[1] in ("rho", "v", "w")) else list(lst)
+            if wnum and kv == ("O0", "w"):
+                val[kv] = [W_NUM]
         opts = {n: True for n, on in zip(("positive_next_speed", "positive_next_density", "positive_next_queue"), nxt) if on}
         out, _, _ = np_step(spec, val, P_SETS[pidx], opts=opts)
         _TWIN[key] = {kv: lst for kv, lst in out.items() if kv[0] == e}
     return _TWIN[key]
 
 
-def run_history(hist, sym, st: Stats):
+def run_history(hist, sym, st: Stats, equal_names=False):
     """Replays a history on fresh real objects and on the model; observes to_function.
-    Returns (problems, model) or (None, None) if some op is disabled."""
+    Returns (problems, model) or (None, None) if some op is disabled.  With equal_names every element is called
+    "e" (readiness is about objects, not names); the numeric clause is then skipped (arguments are located by name)."""
     model = Model()
-    net, obj, eng = real_setup(sym)
+    net, obj, eng = real_setup(sym, equal_names)
     problems = []
     for op in hist:
         if not model.enabled(op):
@@ -263,9 +287,14 @@ def run_history(hist, sym, st: Stats):
                          "and stepped and nothing is stale"))
     elif got == "function":
         free = F.get_free()
+        spec = spec_for(model.spare, model.congest)
+        n_states = sum(n for k_, v_, n in spec.state_vars())
         if free:
             problems.append(("C19/free-symbols", f"{sym}: returned function has free symbols {free}"))
-        else:
+        elif F.nnz_out() != n_states:
+            problems.append(("C19/missing-next-states", f"{sym}: the returned function has {F.nnz_out()} result scalars {F.name_out()}, "
+                             f"the network has {n_states} state scalars"))
+        elif not equal_names:
             spec = spec_for(model.spare, model.congest)
             b = type("B", (), {})()
             b.spec, b.obj = spec, obj
@@ -409,7 +438,21 @@ def worker_unmerged(item):
                 st.sample({"history": hist, "sym": sym, "model_verdict": model.verdict()})
             for sig, msg in problems:
                 st.violation(sig, f"history {hist}: {msg}", {"history": hist, "sym": sym})
+            if sym == "SX" and length <= 3:
+                problems, model = run_history(hist, sym, st, equal_names=True)
+                st.inc("states")
+                for sig, msg in (problems or []):
+                    st.violation(sig + "/equal-names", f"history {hist} (all elements named e): {msg}",
+                                 {"history": hist, "sym": sym, "equal_names": True})
     return st
+
+
+def _safe_worker_merged(item):
+    try:
+        return worker_merged(item)
+    except Exception as e:  # noqa: BLE001
+        from ..parallel import crash_stats
+        return crash_stats(worker_merged, e), []
 
 
 def worker_merged(item):
@@ -441,7 +484,7 @@ def explore_merged(depth, sym, nproc, st_total):
         for d in range(1, depth + 1):
             if not frontier:
                 break
-            res = pool.map(worker_merged, [(sh, sym) for sh in shards_of(frontier, nproc * 4)], chunksize=1)
+            res = pool.map(_safe_worker_merged, [(sh, sym) for sh in shards_of(frontier, nproc * 4)], chunksize=1)
             nxt = []
             for st, succ in res:
                 st_total.merge(st)
@@ -482,7 +525,7 @@ def explore(tier, seed, nproc):
         st.inc("states", n)
     cov = {"operations": len(OPS), "unmerged_history_length_completed": kmax, "unmerged_histories": per_len,
            "merged_bfs": merged, "mini_family": {"operations": len(MINI_OPS), "history_length_completed": kmini},
-           "rule": "every history over the 16 operations up to the length (those using a disabled operation are dropped and "
+           "rule": "every history over the 17 operations up to the length (those using a disabled operation are dropped and "
                    "counted), replayed on fresh real objects, to_function observed in the reached state; plus BFS with states "
                    "merged on the model key"}
     assumptions = [
@@ -504,7 +547,7 @@ def replay(case):
     if case.get("family") == "mini":
         problems = run_mini(hist, case["sym"], st) or []
         return [f"mini-network history ({case['sym']}): {hist}"] + [f"  {s}: {m}" for s, m in problems], bool(problems)
-    problems, model = run_history(hist, case["sym"], st)
+    problems, model = run_history(hist, case["sym"], st, bool(case.get("equal_names")))
     lines = [f"history ({case['sym']}):"] + [f"   {op}" for op in hist]
     if problems is None:
         return lines + ["history uses a disabled operation"], False
